@@ -70,6 +70,8 @@ where
         &mut self,
         cx: &mut std::task::Context<'_>,
     ) -> Poll<Result<(), ConnectionError>> {
+        #[cfg(hyperium_h3_verif)]
+        crate::verif_hooks::point("poll_connection_error:enter");
         if let Some(ref error) = self.handled_connection_error {
             return Poll::Ready(Err(error.clone()));
         };
@@ -80,6 +82,8 @@ where
             // err might be a different error so match again
             return Poll::Ready(Err(self.convert_to_connection_error(err)));
         }
+        #[cfg(hyperium_h3_verif)]
+        crate::verif_hooks::point("poll_connection_error:between");
         self.waker().register(cx.waker());
         Poll::Pending
     }
